@@ -2,6 +2,7 @@
 Helper lemmas for M-Repr (proof side; see Props/C03.lean for the property theorems).
 -/
 import DefconModel.Repr
+import DefconModel.Spec.Repr
 
 namespace DefconModel
 namespace Repr
@@ -81,6 +82,310 @@ theorem get?_evict_sub (facs : List (String × Destr)) (c : Cache V) (n nm : Str
   (get?_evict_some facs c n nm sk v h).1
 
 end Cache
+
+/-! ### evictions touch nothing but the caches -/
+section Worlds
+variable {V : Type}
+
+/-- the part of a world that views, routes and attachment read -/
+structure SameStruct (w w' : World V) : Prop where
+  glyphs : w'.glyphs = w.glyphs
+  looseC : w'.looseC = w.looseC
+  looseK : w'.looseK = w.looseK
+  fuel : w'.fuel = w.fuel
+  groupsVer : w'.groupsVer = w.groupsVer
+  regs : w'.regs = w.regs
+
+theorem SameStruct.refl (w : World V) : SameStruct w w := ⟨rfl, rfl, rfl, rfl, rfl, rfl⟩
+
+theorem SameStruct.trans {a b c : World V} (h1 : SameStruct a b) (h2 : SameStruct b c) : SameStruct a c :=
+  ⟨h2.glyphs.trans h1.glyphs, h2.looseC.trans h1.looseC, h2.looseK.trans h1.looseK,
+   h2.fuel.trans h1.fuel, h2.groupsVer.trans h1.groupsVer, h2.regs.trans h1.regs⟩
+
+theorem sameStruct_setCache (w : World V) (o : Obj) (c : Cache V) : SameStruct w (setCache w o c) :=
+  ⟨rfl, rfl, rfl, rfl, rfl, rfl⟩
+
+theorem sameStruct_dropCache (w : World V) (o : Obj) : SameStruct w (dropCache w o) :=
+  ⟨rfl, rfl, rfl, rfl, rfl, rfl⟩
+
+theorem sameStruct_evictObj (T : Tables) (w : World V) (o : Obj) (n : String) :
+    SameStruct w (evictObj T w o n) := sameStruct_setCache _ _ _
+
+theorem sameStruct_applyDeliv (T : Tables) (w : World V) (ds : List (Obj × String)) :
+    SameStruct w (applyDeliv T w ds) := by
+  unfold applyDeliv
+  induction ds generalizing w with
+  | nil => exact SameStruct.refl w
+  | cons d r ih => exact (sameStruct_evictObj T w d.1 d.2).trans (ih _)
+
+theorem viewOf_congr (T : Tables) {w w' : World V} (h : SameStruct w w') (o : Obj) (nm : String) :
+    viewOf T w' o nm = viewOf T w o nm := by
+  cases o <;> simp [viewOf, findContour, findComp, h.glyphs, h.looseC, h.looseK, h.fuel, h.groupsVer]
+
+theorem attached_congr {w w' : World V} (h : SameStruct w w') (o : Obj) : attached w' o = attached w o := by
+  cases o <;> simp [attached, h.glyphs]
+
+theorem cacheOf_setCache (w : World V) (o o' : Obj) (c : Cache V) :
+    cacheOf (setCache w o c) o' = if o = o' then c else cacheOf w o' := by
+  unfold cacheOf setCache
+  simp only
+  rw [AL.get?_set]
+  by_cases h : o = o' <;> simp [h]
+
+theorem cacheOf_dropCache (w : World V) (o o' : Obj) :
+    cacheOf (dropCache w o) o' = if o = o' then [] else cacheOf w o' := by
+  unfold cacheOf dropCache
+  simp only
+  rw [get?_eraseAll]
+  by_cases h : o = o' <;> simp [h]
+
+/-- what survives a delivery of `n` to `o` was there before; on `o` itself only entries whose
+registered destructive specs `n` does not hit -/
+theorem get?_evictObj (T : Tables) (w : World V) (o : Obj) (n : String) (o' : Obj) (nm : String)
+    (sk : SubKey) (v : V) (h : (cacheOf (evictObj T w o n) o').get? nm sk = some v) :
+    (cacheOf w o').get? nm sk = some v ∧
+      (o = o' → ∀ d, (nm, d) ∈ facsOf T w.regs o.cls → d.hit n = false) := by
+  unfold evictObj at h
+  rw [cacheOf_setCache] at h
+  by_cases e : o = o'
+  · subst e
+    simp only [if_true] at h
+    have := Cache.get?_evict_some _ _ _ _ _ _ h
+    exact ⟨this.1, fun _ => this.2⟩
+  · simp only [e, if_false] at h
+    exact ⟨h, fun e' => absurd e' e⟩
+
+theorem get?_applyDeliv (T : Tables) (w : World V) (ds : List (Obj × String)) (o : Obj) (nm : String)
+    (sk : SubKey) (v : V) (h : (cacheOf (applyDeliv T w ds) o).get? nm sk = some v) :
+    (cacheOf w o).get? nm sk = some v ∧
+      ∀ n, (o, n) ∈ ds → ∀ d, (nm, d) ∈ facsOf T w.regs o.cls → d.hit n = false := by
+  unfold applyDeliv at h
+  induction ds generalizing w with
+  | nil => exact ⟨h, by simp⟩
+  | cons d r ih =>
+    simp only [List.foldl_cons] at h
+    obtain ⟨h1, h2⟩ := ih _ h
+    obtain ⟨h3, h4⟩ := get?_evictObj T w d.1 d.2 o nm sk v h1
+    refine ⟨h3, ?_⟩
+    intro n hn d' hd'
+    simp only [List.mem_cons] at hn
+    rcases hn with hn | hn
+    · have e1 : d.1 = o := by rw [← hn]
+      have e2 : d.2 = n := by rw [← hn]
+      have := h4 e1 d' (by rw [e1]; exact hd')
+      rw [e2] at this; exact this
+    · have hr : (evictObj T w d.1 d.2).regs = w.regs := (sameStruct_evictObj T w d.1 d.2).regs
+      exact h2 n hn d' (by rw [hr]; exact hd')
+
+end Worlds
+
+/-! ### the component graph -/
+
+theorem flatMap_congr' {α β : Type} (l : List α) (f g : α → List β) (h : ∀ x, x ∈ l → f x = g x) :
+    l.flatMap f = l.flatMap g := by
+  induction l with
+  | nil => rfl
+  | cons a r ih =>
+    simp only [List.flatMap_cons]
+    rw [h a (by simp), ih (fun x hx => h x (by simp [hx]))]
+
+theorem ReadsN.trans {gs : Layer} {n m : Nat} {a b c : String} (h1 : ReadsN gs n a b) (h2 : ReadsN gs m b c) :
+    ReadsN gs (n + m) a c := by
+  induction h1 with
+  | refl a => simpa using h2
+  | step g k hg hk hb _ ih =>
+    rename_i n0 _ _ _ _
+    have := ReadsN.step g k hg hk hb (ih h2)
+    have e : n0 + m + 1 = n0 + 1 + m := by omega
+    rw [← e]; exact this
+
+/-- a chain of ≥ 1 hops ends with a component whose base is the target -/
+theorem ReadsN.tail {gs : Layer} {n : Nat} {x a : String} (h : ReadsN gs (n + 1) x a) :
+    ∃ z g k, ReadsN gs n x z ∧ AL.get? gs z = some g ∧ k ∈ g.comps ∧ k.base = some a := by
+  induction n generalizing x with
+  | zero =>
+    cases h with
+    | step g k hg hk hb hr =>
+      cases hr
+      exact ⟨x, g, k, ReadsN.refl x, hg, hk, hb⟩
+  | succ n ih =>
+    cases h with
+    | step g k hg hk hb hr =>
+      obtain ⟨z, g', k', h1, h2, h3, h4⟩ := ih hr
+      exact ⟨z, g', k', ReadsN.step g k hg hk hb h1, h2, h3, h4⟩
+
+theorem ReadsN.pow {gs : Layer} {n : Nat} {a : String} (h : ReadsN gs n a a) (j : Nat) :
+    ReadsN gs (n * j) a a := by
+  induction j with
+  | zero => simpa using ReadsN.refl a
+  | succ j ih =>
+    have := ih.trans h
+    rw [Nat.mul_succ]; exact this
+
+/-- bounded chains: no glyph reads itself through components -/
+theorem no_cycle {gs : Layer} {fuel n : Nat} {a : String} (hb : Bounded gs fuel) (h : ReadsN gs n a a) : n = 0 := by
+  by_cases e : n = 0
+  · exact e
+  · have h1 := hb _ _ _ (h.pow fuel)
+    have : fuel ≤ n * fuel := Nat.le_mul_of_pos_left fuel (Nat.pos_of_ne_zero e)
+    omega
+
+/-- Lemma A: an outline is unchanged when every glyph it reads keeps its contours and components -/
+theorem outline_agree (n : Nat) (gs gs' : Layer) (x : String)
+    (h : ∀ m b, ReadsN gs m x b →
+      (AL.get? gs' b).map (fun g => (g.contours, g.comps)) = (AL.get? gs b).map (fun g => (g.contours, g.comps))) :
+    outline n gs' x = outline n gs x := by
+  induction n generalizing x with
+  | zero => rfl
+  | succ n ih =>
+    unfold outline
+    have h0 := h 0 x (ReadsN.refl x)
+    cases hg : AL.get? gs x with
+    | none =>
+      rw [hg] at h0
+      cases hg' : AL.get? gs' x with
+      | none => rfl
+      | some g' => rw [hg'] at h0; simp at h0
+    | some g =>
+      rw [hg] at h0
+      cases hg' : AL.get? gs' x with
+      | none => rw [hg'] at h0; simp at h0
+      | some g' =>
+        rw [hg'] at h0
+        simp only [Option.map_some, Option.some.injEq, Prod.mk.injEq] at h0
+        simp only [bodyWith]
+        rw [h0.1, h0.2]
+        congr 3
+        apply flatMap_congr'
+        intro k hk
+        unfold compHead
+        cases hb : k.base with
+        | none => rfl
+        | some c =>
+          simp only
+          rw [ih c (fun m b hr => h (m + 1) b (ReadsN.step g k hg hk hb hr))]
+
+/-! ### routes -/
+
+abbrev cbPosts (T : Tables) : List String := T.postsOf "Component" "baseGlyphDataChangedNotificationCallback"
+abbrev bgPosts (T : Tables) : List String := T.postsOf "Glyph" "_componentBaseGlyphDataChanged"
+
+theorem mem_watchers {gs : Layer} {a x' : String} {g : GlyphS} {k : CompS}
+    (hg : AL.get? gs x' = some g) (hk : k ∈ g.comps) (hw : watchesBase a k = true) :
+    (x', k.id) ∈ watchers gs a := by
+  unfold watchers
+  rw [List.mem_flatMap]
+  refine ⟨(x', g), AL.mem_of_get? hg, ?_⟩
+  rw [List.mem_map]
+  exact ⟨k, by simp [List.mem_filter, hk, hw], rfl⟩
+
+theorem glyphDeliv_self {n : Nat} {T : Tables} {gs : Layer} {a : String} {ns : List String} {y : String}
+    (hy : y ∈ ns) : (Obj.glyph a, y) ∈ glyphDeliv (n + 1) T gs a ns := by
+  unfold glyphDeliv
+  apply List.mem_append_left
+  rw [List.mem_map]
+  exact ⟨y, hy, rfl⟩
+
+theorem glyphDeliv_watcher {n : Nat} {T : Tables} {gs : Layer} {a : String} {ns : List String}
+    {x' : String} {kid : Nat} (hr : relays ns = true) (hw : (x', kid) ∈ watchers gs a)
+    {y : Obj × String} (hy : y ∈ compRelay (glyphDeliv n T gs) T x' kid (cbPosts T)) :
+    y ∈ glyphDeliv (n + 1) T gs a ns := by
+  unfold glyphDeliv
+  apply List.mem_append_right
+  simp only [hr, if_true]
+  rw [List.mem_flatMap]
+  exact ⟨(x', kid), hw, hy⟩
+
+theorem compRelay_self {rec : String → List String → List (Obj × String)} {T : Tables} {h : String}
+    {kid : Nat} {cn : List String} {y : String} (hy : y ∈ cn) : (Obj.comp kid, y) ∈ compRelay rec T h kid cn := by
+  unfold compRelay
+  apply List.mem_append_left
+  apply List.mem_append_left
+  rw [List.mem_map]
+  exact ⟨y, hy, rfl⟩
+
+theorem compRelay_bg {rec : String → List String → List (Obj × String)} {T : Tables} {h : String}
+    {kid : Nat} {cn : List String} (hc : cn.contains "Component.BaseGlyphDataChanged" = true)
+    {y : Obj × String} (hy : y ∈ rec h (bgPosts T)) : y ∈ compRelay rec T h kid cn := by
+  unfold compRelay
+  apply List.mem_append_right
+  simp only [hc, if_true]
+  exact hy
+
+theorem compRelay_changed {rec : String → List String → List (Obj × String)} {T : Tables} {h : String}
+    {kid : Nat} {cn : List String} (hc : cn.contains "Component.Changed" = true)
+    {y : Obj × String} (hy : y ∈ rec h (T.postsOf "Glyph" "_componentChanged")) : y ∈ compRelay rec T h kid cn := by
+  unfold compRelay
+  apply List.mem_append_left
+  apply List.mem_append_right
+  simp only [hc, if_true]
+  exact hy
+
+/-- Cascade completeness.  The glyph named `a` posts `ns` (which contains ContoursChanged or
+ComponentsChanged).  Then every component whose base reads `a` through any number of hops receives
+what the base-glyph data callback posts, and its glyph posts what `_componentBaseGlyphDataChanged`
+posts, with fuel left to carry on. -/
+theorem cascade_complete (T : Tables) (gs : Layer) (fuel : Nat) (a : String) (ns : List String)
+    (hBG : relays (bgPosts T) = true)
+    (hcb : (cbPosts T).contains "Component.BaseGlyphDataChanged" = true)
+    (hb : Bounded gs fuel)
+    (hW : ∀ m x, ReadsN gs m x a → ∀ x' g k, AL.get? gs x' = some g → k ∈ g.comps → k.base = some x →
+      k.watch = Watch.base)
+    (hr : relays ns = true) :
+    ∀ m x, ReadsN gs m x a → ∀ x' g k, AL.get? gs x' = some g → k ∈ g.comps → k.base = some x →
+      (∀ y, y ∈ cbPosts T → (Obj.comp k.id, y) ∈ glyphDeliv fuel T gs a ns) ∧
+      (∀ y, y ∈ glyphDeliv (fuel - m - 1) T gs x' (bgPosts T) → y ∈ glyphDeliv fuel T gs a ns) := by
+  intro m
+  induction m with
+  | zero =>
+    intro x hx x' g k hg hk hbase
+    cases hx
+    have hw : watchesBase a k = true := by
+      simp [watchesBase, hW 0 a (ReadsN.refl a) x' g k hg hk hbase, hbase]
+    have hmem := mem_watchers hg hk hw
+    have hlen := hb _ _ _ (ReadsN.step g k hg hk hbase (ReadsN.refl a))
+    obtain ⟨j, hj⟩ : ∃ j, fuel = j + 1 := ⟨fuel - 1, by omega⟩
+    subst hj
+    refine ⟨fun y hy => glyphDeliv_watcher hr hmem (compRelay_self hy), ?_⟩
+    intro y hy
+    have e : j + 1 - 0 - 1 = j := by omega
+    rw [e] at hy
+    exact glyphDeliv_watcher hr hmem (compRelay_bg hcb hy)
+  | succ n ih =>
+    intro x hx x' g k hg hk hbase
+    cases hx with
+    | step g1 k1 hg1 hk1 hb1 hrest =>
+      have hx' : ReadsN gs (n + 1) x a := ReadsN.step g1 k1 hg1 hk1 hb1 hrest
+      obtain ⟨_, hsub⟩ := ih _ hrest x g1 k1 hg1 hk1 hb1
+      have hw : watchesBase x k = true := by
+        simp [watchesBase, hW (n + 1) x hx' x' g k hg hk hbase, hbase]
+      have hmem := mem_watchers hg hk hw
+      have hlen := hb _ _ _ (ReadsN.step g k hg hk hbase hx')
+      obtain ⟨j, hj⟩ : ∃ j, fuel - n - 1 = j + 1 := ⟨fuel - n - 2, by omega⟩
+      rw [hj] at hsub
+      refine ⟨fun y hy => hsub _ (glyphDeliv_watcher hBG hmem (compRelay_self hy)), ?_⟩
+      intro y hy
+      have e : fuel - (n + 1) - 1 = j := by omega
+      rw [e] at hy
+      exact hsub _ (glyphDeliv_watcher hBG hmem (compRelay_bg hcb hy))
+
+/-- … in particular the glyph that holds such a component receives every notification that
+`_componentBaseGlyphDataChanged` posts -/
+theorem cascade_glyph (T : Tables) (gs : Layer) (fuel : Nat) (a : String) (ns : List String)
+    (hBG : relays (bgPosts T) = true)
+    (hcb : (cbPosts T).contains "Component.BaseGlyphDataChanged" = true)
+    (hb : Bounded gs fuel)
+    (hW : ∀ m x, ReadsN gs m x a → ∀ x' g k, AL.get? gs x' = some g → k ∈ g.comps → k.base = some x →
+      k.watch = Watch.base)
+    (hr : relays ns = true)
+    {m : Nat} {x x' : String} {g : GlyphS} {k : CompS} (hx : ReadsN gs m x a)
+    (hg : AL.get? gs x' = some g) (hk : k ∈ g.comps) (hbase : k.base = some x)
+    {y : String} (hy : y ∈ bgPosts T) : (Obj.glyph x', y) ∈ glyphDeliv fuel T gs a ns := by
+  have h := (cascade_complete T gs fuel a ns hBG hcb hb hW hr m x hx x' g k hg hk hbase).2
+  have hlen := hb _ _ _ (ReadsN.step g k hg hk hbase hx)
+  obtain ⟨j, hj⟩ : ∃ j, fuel - m - 1 = j + 1 := ⟨fuel - m - 2, by omega⟩
+  rw [hj] at h
+  exact h _ (glyphDeliv_self hy)
 
 end Repr
 end DefconModel
